@@ -269,3 +269,74 @@ def c14(c):
     to = validate_traces("Trace_Hash", traces_in(c.work, "hash"), parallel=PAR, timeout=3600)
     c.add_traces(to, keyfn=generic_key)
     c.assumptions += ["the search for boundary chunks (driver, sha3 crate) only selects inputs; the verdict is TLC's recomputation"]
+
+
+C04_FACTS = {"ntru_eq", "f_invertible", "pk_relation", "gs_first", "leaf_count", "leaves_in_range", "panic"}
+C05_FACTS = {"sk_bytes", "sk_len", "pk_len", "pk_decodes", "sk_decodes_to_original", "sk_roundtrip", "pk_roundtrip", "representable", "panic"}
+
+
+def _failed(v):
+    d = v[4] if len(v) > 4 else None
+    if isinstance(d, dict) and "#set" in d:
+        return set(d["#set"])
+    return set()
+
+
+def key_key(ev, v):
+    return {"ev": ev.get("ev"), "n": ev.get("n"), "tag": ev.get("tag"), "seed_sha3": runner_sha(ev.get("seed")),
+            "failed": sorted(_failed(v)), "branch": v[3]}
+
+
+def _keys(c, relevant, h512, h1024, l512, l1024):
+    drive("keys", ["--tier", c.tier, "--seed", c.seed, "--out", c.work, "--shards", 14, "--heavy512", h512, "--heavy1024", h1024,
+                   "--light512", l512, "--light1024", l1024], timeout=7200)
+    to = validate_traces("Trace_Key", traces_in(c.work, "key.") + traces_in(c.work, "keylight"), parallel=PAR, timeout=7200)
+    c.add_traces(to, keyfn=key_key, relevant=relevant, label="key")
+    return to
+
+
+def c04(c):
+    thorough = c.tier == "thorough"
+    c.cov["rule"] = ("MC_Ntru: the two-prime CRT evaluation of f G - g F = k equals the schoolbook definition over Z on all small inputs. "
+                     "Trace_Key: per generated key (fixed regression seeds + VERIF_SEED-derived seeds, both variants) TLC checks f G - g F = q "
+                     "exactly over Z, no zero in NTT(f), h f = g mod q, ||(g,-f)||^2 <= 16822, n leaves each in [sigma_min, 1.8205] (bit-pattern "
+                     "order of doubles), accepted candidate = first not rejected. distinct_nontrivial = distinct (variant, fact set) classes")
+    mc = McOutcome()
+    model_check(mc, [dict(module="MC_Ntru", cfg="MC_Ntru", workers=8)])
+    c.add_mc(mc)
+    _keys(c, lambda ev, v: ev.get("ev") in ("key", "keylight") and bool(_failed(v) & C04_FACTS),
+          200 if thorough else 8, 60 if thorough else 4, 0, 0)
+    c.assumptions += ["'for every seed' is sampled", "leaves are observed through the read-only accessor; inner tree nodes are covered by C10's moments only",
+                      "the second Gram-Schmidt bound is checked through its equivalent, the leaf range"]
+
+
+def c05(c):
+    thorough = c.tier == "thorough"
+    c.cov["rule"] = ("MC_KeyCodec: Decode(Encode(x)) = x for all representable toy objects; non-representable secret keys do not survive. "
+                     "Trace_Key: per generated key TLC recomputes EncodeSK/EncodePK from the polynomials and compares byte for byte, checks "
+                     "lengths, DecodeSK(bytes) = original, Representable, and the code's own from_bytes(to_bytes(x)) == x; light events for "
+                     "many seeds (quick 150+20, thorough 1000+200) with coefficient extrema; signatures made with the decoded key are heavy "
+                     "verify events under the original public key")
+    mc = McOutcome()
+    model_check(mc, [dict(module="MC_KeyCodec", cfg="MC_KeyCodec", workers=16)])
+    c.add_mc(mc)
+    _keys(c, lambda ev, v: ev.get("ev") == "sigrt" or bool(_failed(v) & C05_FACTS),
+          12 if thorough else 6, 6 if thorough else 3, 1000 if thorough else 150, 200 if thorough else 20)
+    to = validate_traces("Trace_Verify", traces_in(c.work, "verify"), parallel=4)
+    c.add_traces(to, keyfn=verify_key, label="verify")
+    c.assumptions += ["'for every seed' is sampled (representability failures were ~1.6 per mille of Falcon-512 seeds before fix 95c463b)"]
+
+
+def c06(c):
+    thorough = c.tier == "thorough"
+    c.cov["rule"] = ("MC_KeyCodec: Strict (Decode(b) = Ok(x) => Encode(x) = b) over ALL byte strings of the toy format for the three object "
+                     "types, wrong lengths and headers rejected. Trace_Decode: real from_bytes on all 256 header bytes x 3 types x 2 variants, "
+                     "length classes, other variant's parameters, public-key fields {0,8192,12288,12289,12290,16383} at 4 positions, secret-key "
+                     "fields at the reserved pattern and its neighbours, random bodies; accepted strings must re-encode to themselves; native "
+                     "bulk fuzz summarised")
+    mc = McOutcome()
+    model_check(mc, [dict(module="MC_KeyCodec", cfg="MC_KeyCodec", workers=16)])
+    c.add_mc(mc)
+    _decoders(c, 3000000 if thorough else 40000)
+    c.assumptions += ["signature body canonicity is decided at verification time (C07/C02); from_bytes checks the framing only, as the property's "
+                      "observable 'x.to_bytes() = b' requires"]
